@@ -16,10 +16,12 @@ class Node:
 
 class Type(Node):
     """text pieces: base identifier(s) (dotted), generic args (list of Type), array dims; prim = primitive"""
-    def __init__(self, base, args=(), dims=0, prim=False):
-        super().__init__(base=base, args=list(args), dims=dims, prim=prim)
+    def __init__(self, base, args=(), dims=0, prim=False, diamond=False):
+        super().__init__(base=base, args=list(args), dims=dims, prim=prim, diamond=diamond)
     def text(self):
         t = self.base
+        if self.diamond:
+            t += "<>"
         if self.args:
             t += "<" + ",".join(a.text() for a in self.args) + ">"
         return t + "[]" * self.dims
@@ -66,7 +68,7 @@ def This(): return E(k="this")
 def FieldAcc(e, name): return E(k="field", e=e, name=name)
 def Call(target, name, args=()): return E(k="call", target=target, name=name, args=list(args))
 def New(type, args=(), body=None): return E(k="new", type=type, args=list(args), body=body)
-def Lambda(params, body): return E(k="lambda", params=list(params), body=body)     # body: expression
+def Lambda(params, body, types=None): return E(k="lambda", params=list(params), body=body, types=types)     # body: expression; types: explicit parameter types
 def Assign(l, r): return E(k="assign", l=l, r=r)
 def Bin(op, l, r): return E(k="bin", op=op, l=l, r=r)
 def MRef(e, name): return E(k="mref", e=e, name=name)
@@ -109,6 +111,8 @@ class Renderer:
         for i, p in enumerate(parts):
             if i: self.t(".", True)
             self.t(p, i > 0)
+        if ty.diamond:
+            self.t("<", True); self.t(">", True)
         if ty.args:
             self.t("<", True)
             for i, a in enumerate(ty.args):
@@ -227,6 +231,8 @@ class Renderer:
             for a in (prm[2] if len(prm) > 2 else []):
                 self.annotation(a)
             self.type(pt); self.t(pn)
+            for _ in range(prm[3] if len(prm) > 3 else 0):     # C-style array parameter: `String argv[]`
+                self.t("[", True); self.t("]", True)
         m.rparen = self.t(")", True)
         if m.body is None:
             self.t(";", True)
@@ -319,7 +325,13 @@ class Renderer:
                     self.brk(); self.method(m, None)
                 self.indent -= 1; self.brk(); self.t("}")
         elif k == "lambda":
-            if len(e.params) == 1: self.t(e.params[0], glue)
+            if e.types:
+                self.t("(", glue)
+                for i, (ty, p) in enumerate(zip(e.types, e.params)):
+                    if i: self.t(",", True)
+                    self.type(ty); self.t(p)
+                self.t(")", True)
+            elif len(e.params) == 1: self.t(e.params[0], glue)
             else:
                 self.t("(", glue)
                 for i, p in enumerate(e.params):
@@ -481,6 +493,9 @@ def body_events(unit, stmts):
         elif k == "paren":
             expr(e.e, "(")
         elif k == "lambda":
+            # explicitly typed lambda parameters are formal parameters of the grammar
+            for ty, p in zip(e.types or [], e.params):
+                ev.append(["formal", ty.text(), p])
             expr(e.body, tok_text(unit, e.body.first, e.body.last))
         elif k == "assign":
             l = tok_text(unit, e.l.first, e.l.last)
@@ -537,7 +552,8 @@ def member_fact(unit, m):
         first_annot = [annot_fact(first)] if isinstance(first, Annotation) else []
     annots = [x.name for x in m.mods if isinstance(x, Annotation)]
     mods = [x for x in m.mods if not isinstance(x, Annotation)]
-    ev = [["formal", prm[0].text(), prm[1]] for prm in m.params]
+    # EnterFormalParameter keys on the text of the whole declarator id (`argv[]`), the parameter list on its identifier
+    ev = [["formal", prm[0].text(), prm[1] + "[]" * (prm[3] if len(prm) > 3 else 0)] for prm in m.params]
     if m.body is not None:
         ev += body_events(unit, m.body)
     it = unit.toks[m.name_tok]
@@ -598,7 +614,12 @@ def rand_expr(rng, env, depth=0):
     if r < 0.8:
         return Call(Name(rng.choice(env["types"])), rng.choice(["of", "create", "valueOf"]), [rand_expr(rng, env, depth + 1) for _ in range(rng.randint(0, 1))])
     if r < 0.88:
-        return New(T(rng.choice(env["types"])), [rand_expr(rng, env, depth + 1) for _ in range(rng.randint(0, 2))])
+        ty = T(rng.choice(env["types"]))
+        g = rng.random()
+        if g < 0.12: ty.diamond = True                                   # new Box<>()
+        elif g < 0.24: ty.args = [T(rng.choice(env["types"] + ["String"]))]      # new Box<Repo>()
+        elif g < 0.28: ty.args = [T("String"), T(rng.choice(env["types"]))]     # new Box<String, Repo>()
+        return New(ty, [rand_expr(rng, env, depth + 1) for _ in range(rng.randint(0, 2))])
     if r < 0.93:
         inner = rand_expr(rng, env, depth + 1)
         if inner.k in ("call", "new", "name"):
@@ -728,6 +749,9 @@ def rand_unit(rng, idx, project, layout=None, bodies=True, path_dir="src/main/ja
             if rng.random() < 0.1: mods.append("final")
             if rng.random() < 0.1: rng.shuffle(mods)
             body = rand_stmts(rng, menv, rng.randint(0, 6) if bodies else 0)
+            if rng.random() < 0.12:
+                # a C-style array parameter (`String argv[]`, `long grid[][]`): its declared name is the identifier
+                params = params + [(T(rng.choice(["String", "long", "byte"])), rng.choice(["argv", "grid", "buf"]), [], rng.randint(1, 2))]
             members.append(Method(mnames[i], ret, params, body, mods))
         else:
             mods = ["public"] if rng.random() < 0.3 else []
@@ -739,6 +763,14 @@ def rand_unit(rng, idx, project, layout=None, bodies=True, path_dir="src/main/ja
         menv = dict(env); menv["vars"] = [n for _, n in params]
         members.insert(rng.randint(0, len(members)), Method(name, None, params, rand_stmts(rng, menv, rng.randint(0, 3) if bodies else 0),
                                                             ["public"], kind="ctor"))
+    if kind == "class" and env["fields"] and bodies and rng.random() < 0.15:
+        # a method whose only statement passes an explicitly typed lambda whose parameter is named like a field of
+        # ANOTHER type, directly followed by a method that calls through that field
+        fn = rng.choice(env["fields"])
+        lam = Lambda([fn], Call(Name(fn), rng.choice(METHOD_NAMES), []), types=[T(rng.choice(type_names + ["Audit"]))])
+        first_params = [(T("int"), "n")] if rng.random() < 0.3 else []
+        members.append(Method("visitAll", None, first_params, [ExprS(Call(None, "forEach", [lam]))], ["public"]))
+        members.append(Method("flushAll", None, [], [ExprS(Call(Name(fn), rng.choice(METHOD_NAMES), []))], ["public"]))
     extends = None
     implements = []
     if kind == "class":
@@ -807,7 +839,12 @@ def expected_calls(unit, project):
                 calls.append(["new", e.type.base.split(".")[0], "0", "0", "", ""])
                 for a in e.args: expr(a)
             elif k in ("field", "mref", "paren"): expr(e.e)
-            elif k == "lambda": expr(e.body)
+            elif k == "lambda":
+                saved = dict(scope)
+                for i, p in enumerate(e.params):
+                    scope[p] = ("param", e.types[i] if e.types else None)      # an untyped parameter shadows too
+                expr(e.body)
+                scope.clear(); scope.update(saved)
             elif k in ("assign", "bin"): expr(e.l); expr(e.r)
         def stmts(ss):
             for s in ss:
